@@ -497,6 +497,15 @@ class Program:
                     return [EnumMember(n.targets[0].id, self.fold(n.value, ci.module, None, depth + 1)) for n in ci.node.body
                             if isinstance(n, ast.Assign) and len(n.targets) == 1 and isinstance(n.targets[0], ast.Name) and not n.targets[0].id.startswith("_")]
             raise ValueError("name %s" % expr.id)
+        if isinstance(expr, ast.Attribute) and expr.attr == "__members__" and isinstance(expr.value, (ast.Name, ast.Attribute)) and mod is not None:
+            r = self.resolve_name(mod, expr.value.id) if isinstance(expr.value, ast.Name) else self.resolve_expr(mod, expr.value)
+            if r and r[0] == "class" and self._is_enum_class(r[1]):
+                return {m_.name: m_ for m_ in self.fold(ast.Name(id=r[1].name, ctx=ast.Load()), r[1].module, None, depth + 1)}
+        if isinstance(expr, ast.Call) and isinstance(expr.func, ast.Attribute) and expr.func.attr in ("items", "keys", "values") and not expr.args and not expr.keywords:
+            base = self.fold(expr.func.value, mod, env, depth + 1)
+            if isinstance(base, dict):
+                return [tuple(kv) for kv in base.items()] if expr.func.attr == "items" else list(getattr(base, expr.func.attr)())
+            raise ValueError("method of a non-dict")
         if isinstance(expr, ast.Attribute) and expr.attr in ("value", "name"):
             try:
                 base = self.fold(expr.value, mod, env, depth + 1)
@@ -534,6 +543,8 @@ class Program:
             fn = call_name(expr)
             if fn in ("float", "int") and len(expr.args) == 1 and not expr.keywords:
                 v = self.fold(expr.args[0], mod, env, depth + 1)
+                if isinstance(v, EnumMember):
+                    v = v.value
                 return float(v) if fn == "float" else int(v)
             PURE = {"dict": dict, "tuple": tuple, "list": list, "set": set, "frozenset": frozenset, "sorted": sorted, "len": len, "range": range,
                     "zip": zip, "enumerate": enumerate, "min": min, "max": max, "sum": sum, "abs": abs, "round": round, "pow": pow, "reversed": reversed,
